@@ -753,7 +753,14 @@ def run_ext(ctx, quick):
     ctx.notes += [
         "qlfqueue_empty() is not linearizable once node addresses are re-used (lfqr_empty_never_empty_refuted, machine-checked witness); "
         "the C15 clause about emptiness holds for every schedule (lfqr_empty_sound); qlfqueue_dequeue loads next_ptr->value from a "
-        "possibly freed node, result discarded (lfqr_value_read_uaf_refuted): docs/proposed_fixes/C15-lfq-dequeue-revalidate.diff"]
+        "possibly freed node, result discarded (lfqr_value_read_uaf_refuted): docs/proposed_fixes/C15-lfq-dequeue-revalidate.diff",
+        "outside C15's scope (callers that are not workers), recorded only: hazard-release-node-external-null-worker, "
+        "hazard-external-thread-slots-ignored, hazard-scan-plist-overflow-one-external (docs/proposed_fixes/"
+        "C15-hazardptrs-external-threads.diff). Reproduce with the harness mode XP, one line per process, e.g. "
+        "QT_NUM_SHEPHERDS=2 QT_NUM_WORKERS_PER_SHEPHERD=1 <c15_queues> with input `XP 2 3` (crash) or `XP 3 0 0` (protection lost, duplicate)"]
+    ctx.cov["ext_H"]["notes_signatures"] = ["lfq-dequeue-unvalidated-next", "lfq-empty-not-linearizable-under-reuse",
+                                            "hazard-release-node-external-null-worker", "hazard-external-thread-slots-ignored",
+                                            "hazard-scan-plist-overflow-one-external"]
     mismatches, rejects = acc["mismatches"], acc["rejects"]
     broken = bool(mismatches) or not pr["ok"]
     if broken:
